@@ -138,7 +138,61 @@ def _mask_bits(rng_value):
     return (r - 1).bit_length()
 
 
+def n_events(spec):
+    return spec['bulk']['n'] if spec.get('bulk') else len(spec['events'])
+
+
+def bulk_values(spec):
+    """Large event matrices are described by (n, seed) instead of explicit values (real files have 10^5..10^6
+    events); values are drawn with numpy from the seed, column by column. Returns a list of per-column arrays."""
+    g = np.random.default_rng(spec['bulk']['seed'])
+    N = spec['bulk']['n']
+    cols = []
+    for w in spec['widths']:
+        if spec['datatype'] == 'I':
+            cols.append(g.integers(0, 1 << min(w, 63), size=N, dtype=np.uint64, endpoint=False))
+        elif spec['datatype'] == 'F':
+            cols.append(g.normal(0, 1000, N).astype('f4'))
+        else:
+            cols.append(g.normal(0, 1000, N).astype('f8'))
+    return cols
+
+
+def _bulk_bytes(spec):
+    big = spec['byteord'] in BYTEORDS_BIG
+    cols = bulk_values(spec)
+    N = spec['bulk']['n']
+    parts = []
+    for v, w in zip(cols, spec['widths']):
+        nb = w // 8
+        if spec['datatype'] == 'I':
+            b = v.astype('<u8').view(np.uint8).reshape(N, 8)[:, :nb]
+        else:
+            b = v.astype('<f%d' % nb).view(np.uint8).reshape(N, nb)
+        parts.append(b[:, ::-1] if big else b)
+    return np.ascontiguousarray(np.hstack(parts)).tobytes()
+
+
+def _bulk_truth(spec):
+    cols = bulk_values(spec)
+    N = spec['bulk']['n']
+    D = len(cols)
+    if spec['datatype'] == 'I':
+        mw = max(spec['widths'])
+        up = 8
+        while up < mw:
+            up *= 2
+        arr = np.zeros((N, D), dtype='u%d' % (up // 8))
+        for j, v in enumerate(cols):
+            bits = _mask_bits(spec['ranges'][j])
+            arr[:, j] = (v & np.uint64((1 << bits) - 1 if bits < 64 else 0xFFFFFFFFFFFFFFFF)).astype(arr.dtype)
+        return arr
+    return np.column_stack(cols).astype('f4' if spec['datatype'] == 'F' else 'f8')
+
+
 def encode_events(spec):
+    if spec.get('bulk'):
+        return _bulk_bytes(spec)
     dt = spec['datatype']
     big = spec['byteord'] in BYTEORDS_BIG
     ev = spec['events']
@@ -158,6 +212,8 @@ def encode_events(spec):
 
 def truth_events(spec):
     """What an intact load must return (values; dtype kind/itemsize hint)."""
+    if spec.get('bulk'):
+        return _bulk_truth(spec)
     dt = spec['datatype']
     D = len(spec['widths'])
     ev = spec['events']
@@ -195,7 +251,7 @@ def build(spec):
     v3 = version in ('FCS3.0', 'FCS3.1')
     delim = spec['delim']
     D = len(spec['widths'])
-    N = len(spec['events'])
+    N = n_events(spec)
     W = spec.get('offset_width', 10)
     ov = spec.get('overrides') or {}
     data = encode_events(spec)
@@ -495,7 +551,34 @@ def ref_load(b):
         raise RefReject('DATA size mismatch')
     if dbeg < 0 or dbeg + nbytes > len(b):
         raise RefReject('DATA extends past end of file')
-    if dt == 'I':
+    if N * max(D, 1) > 20000:
+        # large files: the same decoding, column-wise with numpy (a per-value python loop would take minutes)
+        raw = np.frombuffer(b, dtype=np.uint8, count=nbytes, offset=dbeg).reshape(N, rowbytes)
+        if dt == 'I':
+            mw = max(widths) if widths else 8
+            up = 8
+            while up < mw:
+                up *= 2
+            data = np.zeros((N, D), dtype='u%d' % (up // 8))
+            off = 0
+            for j, w in enumerate(widths):
+                nb = w // 8
+                r = ranges[j]
+                if r <= 0 or r != r or math.isinf(r):
+                    raise RefReject('$PnR not positive')
+                acc = np.zeros(N, dtype=np.uint64)
+                for k in range(nb):
+                    shift = 8 * ((nb - 1 - k) if big else k)
+                    acc |= raw[:, off + k].astype(np.uint64) << np.uint64(shift)
+                bits = _mask_bits(math.ceil(r))
+                acc &= np.uint64((1 << bits) - 1 if bits < 64 else 0xFFFFFFFFFFFFFFFF)
+                data[:, j] = acc.astype(data.dtype)
+                off += nb
+        else:
+            sz = 4 if dt == 'F' else 8
+            data = np.frombuffer(b, dtype=('>' if big else '<') + 'f%d' % sz, count=N * D, offset=dbeg) \
+                .reshape(N, D).astype('f%d' % sz)
+    elif dt == 'I':
         mw = max(widths) if widths else 8
         up = 8
         while up < mw:
